@@ -145,6 +145,9 @@ def sanitizer_class(err_path, fallback):
     m = re.search(r' in (\S+) /repo/src/', txt)
     if m:
         func = m.group(1)
+    if typ in ('heap-buffer-overflow', 'heap-use-after-free', 'SEGV', 'stack-buffer-overflow', 'global-buffer-overflow', 'use-after-poison', 'unknown-crash',
+               'memcpy-param-overlap', 'negative-size-param', 'stack-use-after-scope', 'dynamic-stack-buffer-overflow') or typ.startswith('signal'):
+        typ = 'mem'       # which of these an out-of-bounds access becomes depends on the heap layout of the process
     return f'sanitizer:{typ}:{func}'
 
 
@@ -435,7 +438,10 @@ def write_evidence(prop, tier, seed, results, crashes, violations, known_out, wa
     ctr = {}
     for r in results:
         for k, v in r.get('ctr', {}).items():
-            ctr[k] = ctr.get(k, 0) + v
+            if k in ('queue_states_total', 'queue_max_count'):
+                ctr[k] = max(ctr.get(k, 0), v)
+            else:
+                ctr[k] = ctr.get(k, 0) + v
     sim_s = sum(r.get('sim_ns', 0) for r in results) / 1e9
     faults = {k[6:]: v for k, v in ctr.items() if k.startswith('fault_')}
     probes = {k[6:]: v for k, v in ctr.items() if k.startswith('probe_')}
